@@ -903,6 +903,8 @@ def left_batch(g, key=(FD, 'list_active')):
                         S = S | {('U', v)}
                     elif w is not None and ('U', w) in before and w != v:
                         S = S | {('U', v)}
+                    elif w is not None and ('UL', w) in before and w != v:
+                        S = S | {('UL', v)}         # the unlinked node handed on (`$ret1 = n@1`: a pop helper that returns the node)
                 return S
             if any(it[0] == 'N' for it in S) and may_change_lists(e):
                 return frozenset(it for it in S if it[0] != 'N')
@@ -945,7 +947,18 @@ def left_batch(g, key=(FD, 'list_active')):
         return S
     from ..core import forward
     _, ev_in = forward(g, frozenset(), tr, lambda a, b: a & b, edge=edge)
-    return {k: frozenset(it[1] for it in S if it[0] == 'U') for k, S in ev_in.items()}
+    # '@node:N': the node the pointer variable N holds was unlinked since N was defined (for an owner that is never stored
+    # in a variable: `dispatch_one(st, container_of(pop_node(&batch), ...))`, see owner_node)
+    return {k: frozenset(it[1] for it in S if it[0] == 'U') | frozenset('@node:' + it[1] for it in S if it[0] == 'UL')
+            for k, S in ev_in.items()}
+
+
+def owner_node(x, key=(FD, 'list_active')):
+    """N when x is container_of(N, record, field) of the batch node held in the plain pointer variable N"""
+    x = strip(x)
+    if isinstance(x, dict) and x.get('k') == 'container_of' and (x.get('record'), x.get('member')) == key:
+        return _plain_var(x['e'])
+    return None
 
 
 def is_null_value(x):
@@ -975,10 +988,12 @@ def const_value(x):
 # with either operand order)
 # ---------------------------------------------------------------------------------------
 
-def stale_after_callback(fn, is_callback):
+def stale_after_callback(fn, is_callback, also=()):
+    """`also`: further variables known (by their use) to denote user objects: e.g. the return temporary of an inlined pop
+    helper, which carries no record annotation"""
     from ..analyses import USER_OBJECT_RECORDS, derefs_by_event
     from ..core import forward
-    objvars = {}
+    objvars = {n: FD for n in also}
     for e in fn.events():
         for x in walk(e):
             if x.get('k') == 'var' and x.get('vk') in ('local', 'param') and x.get('ptr') \
@@ -995,10 +1010,48 @@ def stale_after_callback(fn, is_callback):
             r, l = strip(e['rhs']), strip(e['lhs'])
             if isinstance(r, dict) and r.get('k') == 'var' and r['name'] in objvars and l.get('k') == 'member':
                 markers[canon(e['lhs'])] = r['name']
+            if owner_node(r) in objvars and l.get('k') == 'member':
+                markers[canon(e['lhs'])] = owner_node(r)      # `M = container_of(N, ...)`: the object is denoted through its node N
             if isinstance(r, dict) and r.get('k') == 'addr':
                 v = strip(r['e'])
                 if isinstance(v, dict) and v.get('k') == 'var' and v['name'] in objvars:
                     markers[v['name']] = v['name']
+
+    def derefs(e):
+        """analyses.derefs_by_event, plus the dereferences of an object that is denoted by the owner expression of a node
+        variable (`container_of(N, iv_fd_, list_active)->field` is a use of the object N stands for)"""
+        out = list(derefs_by_event(e))
+        cands = []
+        if e['ev'] == 'load':
+            cands.append(e['e'])
+        elif e['ev'] == 'store':
+            cands.append(e['lhs'])
+        elif e['ev'] in ('call', 'enter'):
+            for a in e.get('args', []):
+                a2 = strip(a)
+                cands.append(a2['e'] if isinstance(a2, dict) and a2.get('k') == 'addr' else None)
+            if e['ev'] == 'call' and 'fnexpr' in e:
+                cands.append(strip(e['fnexpr']))
+        for x in cands:
+            y = x
+            while isinstance(y, dict):
+                y = strip(y)
+                if not isinstance(y, dict):
+                    break
+                if y.get('k') == 'member':
+                    if y['arrow']:
+                        n_ = owner_node(y['base'])
+                        if n_ is not None:
+                            out.append(({'k': 'var', 'name': n_}, canon(x)))
+                        break
+                    y = y['base']
+                elif y.get('k') in ('index',):
+                    y = y['base']
+                elif y.get('k') in ('addr', 'deref'):
+                    y = y['e']
+                else:
+                    break
+        return out
 
     def transfer(e, S):
         if e['ev'] == 'store':
@@ -1038,7 +1091,7 @@ def stale_after_callback(fn, is_callback):
             if not S:
                 continue
             names = {x[0]: x[1] for x in S}
-            for (v, acc) in derefs_by_event(e):
+            for (v, acc) in derefs(e):
                 if v['name'] in names:
                     reports.append((e, v['name'], acc, names[v['name']]))
     return reports, objvars, markers
@@ -1311,3 +1364,615 @@ def _obj_base(x):
     while isinstance(x, dict) and x.get('k') == 'member' and not x['arrow']:
         x = strip(x['base'])
     return x['base'] if isinstance(x, dict) and x.get('k') == 'member' else x
+
+
+# ---------------------------------------------------------------------------------------
+# R-C03c (iteration 3): INIT-COMPLETE for the descriptor kind, decided per path and per object.
+# Local re-formulation of generic.init_complete (shared file): same instances (`iv_fd_.<field path> [method]`), same texts.
+#   * object identity: the descriptor being registered is the root's descriptor parameter and every variable that can only
+#     hold a (cast) copy of it (typed local, renamed parameter of an inlined helper, argument temporary); writes and reads
+#     are attributed to *that object*, not to a variable name -- and a write to another descriptor does not count;
+#   * success per path: a field must have been written on every path of the registration function that leaves the descriptor
+#     live (its `registered` flag -- what iv_fd_registered() reports -- not provably zero at the return); return statements,
+#     result variables, merged entry points with a mode flag and goto-cleanup shapes do not matter.
+# ---------------------------------------------------------------------------------------
+
+def alias_roots(g):
+    """{variable: root variable} for the pointer variables of g that can only hold the value of a never-assigned variable
+    (a parameter): every definition of the variable is one plain (cast) copy of the root or of another such variable.
+    Holds at every point at which the variable is defined at all, loops included (the root never changes)."""
+    defs = {}
+    for e in g.events():
+        if e['ev'] == 'store':
+            l = strip(e['lhs'])
+            if isinstance(l, dict) and l.get('k') == 'var':
+                r = strip(e['rhs']) if e.get('op') == '=' and 'rhs' in e else None
+                src = r['name'] if isinstance(r, dict) and r.get('k') == 'var' else None
+                defs.setdefault(l['name'], set()).add((e.get('loc'), src))
+    taken = _addr_taken(g)
+    root = {}
+    changed = True
+    while changed:
+        changed = False
+        for v, ds in defs.items():
+            if v in root or v in taken or len(ds) != 1:
+                continue
+            (_, w) = next(iter(ds))
+            if w is None or w in taken or w == v:
+                continue
+            if w not in defs:
+                root[v] = w
+                changed = True
+            elif w in root:
+                root[v] = root[w]
+                changed = True
+    return root
+
+
+def object_accesses(e, rec, amap):
+    """generic.field_accesses with every variable replaced by the object it must denote"""
+    from ..generic import field_accesses
+    return [(k, amap.get(v, v), p) for (k, v, p) in field_accesses(e, rec)]
+
+
+def _registered_atom(at, amap, obj):
+    """'0' / 'nz' when the branch atom says that OBJ->registered is zero / non-zero"""
+    (op, lc, rc, l, r) = at
+    m = strip(l)
+    if op not in ('==', '!=') or rc != '0' or not isinstance(m, dict) or m.get('k') != 'member':
+        return None
+    if (m.get('record'), m.get('field')) != (FD, 'registered') or not m.get('arrow'):
+        return None
+    b = strip(m['base'])
+    if not (isinstance(b, dict) and b.get('k') == 'var' and amap.get(b['name'], b['name']) == obj):
+        return None
+    return '0' if op == '==' else 'nz'
+
+
+def written_when_live(g, rec, amap, obj, track_live=True):
+    """(field paths of OBJ written on every path of g that ends with OBJ live, number of such path classes at the returns).
+    Path classes: what is known of OBJ->registered ('0', 'nz', '?': stores of constants, branch outcomes); a class that ends
+    with the flag provably zero is a path on which registration did not happen (track_live=False: every path counts)."""
+    def norm(pairs):
+        out = {}
+        for (lv, w) in pairs:
+            out[lv] = w if lv not in out else (out[lv] & w)
+        return frozenset(out.items())
+
+    def tr(e, S):
+        out = []
+        for (lv, w) in S:
+            for (k, v, p) in object_accesses(e, rec, amap):
+                if k == 'w' and v == obj:
+                    w = w | {p}
+            if track_live and e['ev'] == 'store' and (FD, 'registered') in lvalue_steps(e['lhs']):
+                m = strip(e['lhs'])
+                b = strip(m['base']) if isinstance(m, dict) and m.get('k') == 'member' and m.get('arrow') else None
+                mine = isinstance(b, dict) and b.get('k') == 'var' and amap.get(b['name'], b['name']) == obj
+                c = const_value(e['rhs']) if e.get('op') == '=' and 'rhs' in e else None
+                if mine and c is not None:
+                    lv = '0' if c == 0 else 'nz'
+                else:
+                    lv = '?'            # computed value, or a store through a pointer that may alias the object
+            out.append((lv, w))
+        return norm(out)
+
+    def edge(blk, si, S):
+        if not track_live or not blk.term or blk.term.get('cond') is None or len(blk.succ) != 2 \
+                or blk.term.get('cls') in ('SwitchStmt', 'MethodDispatch'):
+            return S
+        says = {t for t in (_registered_atom(a, amap, obj) for a in norm_cond(blk.term['cond'], si == 0)) if t}
+        if not says:
+            return S
+        if len(says) == 2:
+            return None
+        t = says.pop()
+        out = [(t, w) for (lv, w) in S if lv in ('?', t)]
+        return norm(out) if out else None
+
+    from ..core import forward
+    _, ev_in = forward(g, frozenset({('?', frozenset())}), tr, lambda a, b: norm(list(a) + list(b)), edge=edge)
+    ends = []
+    for pt in exit_points(g):
+        ends += list(ev_in.get(pt) or ())
+    result, n = None, 0
+    for (lv, w) in ends:
+        if track_live and lv == '0':
+            continue
+        n += 1
+        result = w if result is None else (result & w)
+    return (result or frozenset()), n
+
+
+def reads_before_write(g, rec, amap):
+    """{field path: [(object name, event)]}: reads of a field of a `rec` object in g that are not preceded, on some path from
+    g's entry, by a write of that field of the same object (generic.read_before_write with object identity)."""
+    from ..generic import _covers
+    from ..core import forward
+
+    def tr(e, S):
+        for (k, v, p) in object_accesses(e, rec, amap):
+            if k == 'w':
+                S = S | {(v, p)}
+        if e['ev'] == 'store':
+            l = strip(e['lhs'])
+            if isinstance(l, dict) and l.get('k') == 'var' and l['name'] not in amap:
+                S = frozenset(x for x in S if x[0] != l['name'])
+        return S
+    _, ev_in = forward(g, frozenset(), tr, lambda a, b: a & b)
+    out = {}
+    for b, blk in g.blocks.items():
+        for i, e in enumerate(blk.events):
+            S = ev_in.get((b, i))
+            if S is None:
+                continue
+            for (k, v, p) in object_accesses(e, rec, amap):
+                if k == 'r' and not _covers(S, v, p):
+                    out.setdefault(p, []).append((v, e))
+    return out
+
+
+def only_from_registration(prog, f, regs, rts):
+    """f is a helper every call chain to which starts in a registration function (through static helpers whose address is
+    not taken): its reads are seen, in context, by the analysis of the inlined registration functions."""
+    if f.q in rts:
+        return False
+    nr = nearest_roots(prog, f, rts)
+    return bool(nr) and all(r.name in regs for r in nr.values())
+
+
+def init_complete(ctx, rid):
+    from .. import generic as G
+    from ..core import relpath
+    prog = ctx.prog
+    K = [k for k in G.OBJECT_KINDS if k['rec'] == FD]
+    if not K:
+        raise AnalysisBroken('object kind %s unknown' % FD)
+    K = K[0]
+    rec = FD
+    if rec not in prog.records or 'fields' not in prog.records[rec]:
+        raise AnalysisBroken('record %s not found' % rec)
+    regs = [r for r in K['reg'] if prog.has_fn(r)]
+    if not regs:
+        raise AnalysisBroken('register function of %s not found' % rec)
+    fields = {f['name']: f for f in prog.records[rec]['fields']}
+    private = [f for f in fields if f not in K['user'] and fields[f].get('record') not in G.KIND_RECORDS]
+    mpriv = G._method_private(prog)
+    rts = root_map(prog)
+    skip = set(regs) | ({K['init']} if K['init'] else set())
+    # reads anywhere else in the library (per function, out of context): what a library function may read of a live descriptor
+    elsewhere = []
+    for f in prog.all_funcs():
+        if f.name in skip or not f.blocks:
+            continue
+        rb = reads_before_write(f, rec, alias_roots(f))
+        if rb:
+            elsewhere.append((f, rb, only_from_registration(prog, f, regs, rts)))
+    n = 0
+    for table in sorted(prog.method_tables()):
+        def obj_of(root, g):
+            ps = [p['name'] for p in root.params if p.get('ptr') and p.get('record') in FD_RECORDS]
+            if len(ps) != 1:
+                raise AnalysisBroken('%s: no single descriptor parameter' % root.name)
+            am = alias_roots(g)
+            if ps[0] in am:
+                raise AnalysisBroken('%s: descriptor parameter is reassigned' % root.name)
+            return am, ps[0]
+        w_init = frozenset()
+        if K['init'] and prog.has_fn(K['init']):
+            fi = prog.fn(K['init'])
+            gi = inline(prog, fi, method_table=table, expand_methods=True)
+            am, obj = obj_of(fi, gi)
+            w_init, _ = written_when_live(gi, rec, am, obj, track_live=False)
+        w_reg = None
+        rreaders, readers = {}, {}
+        for r in regs:
+            fr = prog.fn(r)
+            g = inline(prog, fr, method_table=table, expand_methods=True)
+            am, obj = obj_of(fr, g)
+            w, nlive = written_when_live(g, rec, am, obj)
+            if nlive == 0:
+                raise AnalysisBroken('%s has no path that leaves the descriptor registered' % r)
+            w_reg = w if w_reg is None else (w_reg & w)
+            for fld, evs in reads_before_write(g, rec, am).items():
+                for (v, e) in evs:
+                    # the object being registered: read before registration wrote it; another (live) descriptor: a library read
+                    (rreaders if v == obj else readers).setdefault(fld, []).append((r, e))
+        for (f, rb, covered) in elsewhere:
+            if f.q in mpriv and table not in mpriv[f.q]:
+                continue
+            if covered:
+                continue
+            for fld, evs in rb.items():
+                readers.setdefault(fld, []).extend((f.q, e) for (v, e) in evs)
+        w_init = frozenset(('*', p) for p in w_init)
+        w_all = w_init | frozenset(('*', p) for p in w_reg)
+        for fld in sorted(set(readers) | set(rreaders)):
+            topf = fld.split('.')[0]
+            if topf not in private:
+                continue
+            rd, rr = readers.get(fld, []), rreaders.get(fld, [])
+            ok, why = True, ''
+            if rr and not G._covers(w_init, '*', fld):
+                ok = False
+                why = 'read by %s before any write; %s does not initialise it' % (rr[0][0], K['init'] or 'no INIT function')
+            if rd and not G._covers(w_all, '*', fld):
+                ok = False
+                why = 'read by %s (%s) but not written on every path of %s that leaves the descriptor registered, nor by %s' % (
+                    rd[0][0], relpath(rd[0][1]['loc']), '/'.join(regs), K['init'] or 'an INIT function')
+            inst = '%s.%s [%s]' % (rec, fld, table.replace('iv_fd_poll_method_', ''))
+            loc = (rd or rr)[0][1]['loc']
+            ctx.ob(rid, inst, ok, loc=loc,
+                   detail=why or 'written by %s before any library read' % ('INIT' if G._covers(w_init, '*', fld) else 'registration'),
+                   fn=(rd or rr)[0][0])
+            n += 1
+    return n
+
+
+# ---------------------------------------------------------------------------------------
+# R-C03f (iteration 3): the descriptor array and the kernel-facing entry array of a poll method that keeps descriptors in
+# array slots stay parallel.  Decided by evaluation of the method's own slot code (helpers inlined, as normalised) on a
+# bounded concrete model: a few descriptors, every short sequence of interest changes, starting from the empty state.  No
+# statement shape, order or expression spelling is looked at: only the memory the code leaves behind.
+# ---------------------------------------------------------------------------------------
+
+class Stuck(Exception):
+    """the slot code does something the model evaluator has no meaning for"""
+
+
+class ModelViolation(Exception):
+    pass
+
+
+class SlotMachine:
+    CAP = 8
+
+    def __init__(self, state='state'):
+        self.objs = {}          # object name -> nested dict of fields (absent = 0 / not yet created)
+        self.steps = 0
+        self.state = state
+        self.owned = {id(self.obj(state))}      # aggregates that are part of the per-thread state
+
+    # ---- memory ------------------------------------------------------------
+    def obj(self, name):
+        return self.objs.setdefault(name, {})
+
+    def _sub(self, container, key):
+        """the aggregate stored at container[key], created on first use"""
+        try:
+            v = container[key]
+        except (KeyError, IndexError):
+            v = None
+        if v is None or v == 0:
+            v = {}
+            container[key] = v
+            if id(container) in self.owned:
+                self.owned.add(id(v))
+        if not isinstance(v, dict):
+            raise Stuck('member access into a scalar')
+        return v
+
+    def _pointee(self, p, what):
+        if isinstance(p, tuple) and p[0] == 'obj':
+            return self.obj(p[1])
+        if isinstance(p, tuple) and p[0] == 'ref':
+            return self._sub(p[1], p[2])
+        if p in (0, None):
+            raise ModelViolation('NULL pointer dereferenced in %s' % what)
+        raise Stuck('dereference of %r in %s' % (p, what))
+
+    def lval(self, x, env):
+        k = x.get('k')
+        if k in ('load', 'cast', 'paren', 'stmtexpr') and 'e' in x:
+            return self.lval(x['e'], env)
+        if k == 'var':
+            return (env, x['name'])
+        if k == 'member':
+            if x['arrow']:
+                return (self._pointee(self.rval(x['base'], env), canon(x)), x['field'])
+            c, key = self.lval(x['base'], env)
+            return (self._sub(c, key), x['field'])
+        if k == 'index':
+            arr = self.rval(x['base'], env)
+            if arr in (0, None):
+                c, key = self.lval(x['base'], env)
+                arr = ('arr', [None] * self.CAP)        # what the method's init slot allocated
+                c[key] = arr
+            i = self.rval(x['idx'], env)
+            if isinstance(arr, tuple) and arr[0] == 'ref' and isinstance(arr[1], list) and isinstance(i, int):
+                arr, i = ('arr', arr[1]), arr[2] + i
+            if not (isinstance(arr, tuple) and arr[0] == 'arr' and isinstance(i, int)):
+                raise Stuck('indexing %s' % canon(x))
+            if not 0 <= i < len(arr[1]):
+                raise ModelViolation('%s: index %d outside the array' % (canon(x), i))
+            return (arr[1], i)
+        if k == 'deref':
+            p = self.rval(x['e'], env)
+            if isinstance(p, tuple) and p[0] == 'ref':
+                return (p[1], p[2])
+            raise Stuck('dereference %s' % canon(x))
+        raise Stuck('not an lvalue: %s' % canon(x))
+
+    @staticmethod
+    def _get(c, key):
+        try:
+            v = c[key]
+        except (KeyError, IndexError):
+            v = None
+        return 0 if v is None else v
+
+    def rval(self, x, env):
+        if not isinstance(x, dict):
+            raise Stuck('expression %r' % (x,))
+        k = x.get('k')
+        if k == 'int':
+            return x['v']
+        if k == 'null':
+            return 0
+        if k in ('cast', 'paren', 'stmtexpr') and 'e' in x:
+            return self.rval(x['e'], env)
+        if k in ('load', 'var', 'member', 'index', 'deref'):
+            c, key = self.lval(x, env)
+            v = self._get(c, key)
+            x = strip(x)
+            if v == 0 and x.get('k') == 'member' and id(c) in self.owned and str(x.get('type', '')).rstrip().endswith('*') \
+                    and '(' not in str(x.get('type', '')):
+                # a pointer member of the per-thread state, read for the first time: the array the method's init slot
+                # allocated there (wherever the slot code caches the pointer afterwards)
+                v = ('arr', [None] * self.CAP)
+                c[key] = v
+            return v
+        if k == 'addr':
+            c, key = self.lval(x['e'], env)
+            return ('ref', c, key)
+        if k == 'incdec':
+            # the step itself is a separate, earlier store event: recover the value of the expression
+            c, key = self.lval(x['e'], env)
+            v = self._get(c, key)
+            if not isinstance(v, int):
+                raise Stuck('stepping a non-integer')
+            return v if x.get('prefix') else (v - 1 if x['op'] == '++' else v + 1)
+        if k == 'un':
+            v = self.rval(x['e'], env)
+            if x['op'] == '!':
+                return 0 if self.truth(v) else 1
+            if isinstance(v, int) and x['op'] in ('-', '~', '+'):
+                return {'-': -v, '~': ~v, '+': v}[x['op']]
+            raise Stuck('unary %s' % x['op'])
+        if k == 'cond':
+            return self.rval(x['a'] if self.truth(self.rval(x['c'], env)) else x['b'], env)
+        if k == 'bin':
+            op = x['op']
+            if op == '&&':
+                return 1 if self.truth(self.rval(x['l'], env)) and self.truth(self.rval(x['r'], env)) else 0
+            if op == '||':
+                return 1 if self.truth(self.rval(x['l'], env)) or self.truth(self.rval(x['r'], env)) else 0
+            if op == ',':
+                self.rval(x['l'], env)
+                return self.rval(x['r'], env)
+            a, b = self.rval(x['l'], env), self.rval(x['r'], env)
+            if op in ('==', '!='):
+                same = self._same(a, b)
+                return 1 if same == (op == '==') else 0
+            if isinstance(a, tuple) and a[0] == 'ref' and isinstance(a[1], list) and isinstance(b, int) and op in ('+', '-'):
+                return ('ref', a[1], a[2] + (b if op == '+' else -b))
+            if isinstance(a, tuple) and a[0] == 'arr' and isinstance(b, int) and op == '+':
+                return ('ref', a[1], b)
+            if isinstance(a, int) and isinstance(b, int):
+                if op in _CMP:
+                    return 1 if _CMP[op](a, b) else 0
+                if op in _ARITH:
+                    return _ARITH[op](a, b)
+                if op in ('/', '%') and b != 0:
+                    return int(a / b) if op == '/' else a - b * int(a / b)
+            raise Stuck('operator %s on %r, %r' % (op, a, b))
+        raise Stuck('expression kind %s (%s)' % (k, canon(x)))
+
+    @staticmethod
+    def _same(a, b):
+        if isinstance(a, tuple) and isinstance(b, tuple):
+            if a[0] != b[0]:
+                return False
+            if a[0] == 'obj':
+                return a[1] == b[1]
+            return a[1] is b[1] and (len(a) < 3 or a[2] == b[2])
+        if isinstance(a, tuple) or isinstance(b, tuple):
+            return False
+        return a == b
+
+    @staticmethod
+    def truth(v):
+        return v not in (0, None)
+
+    # ---- execution -----------------------------------------------------------
+    def store(self, e, env):
+        import copy
+        c, key = self.lval(e['lhs'], env)
+        op = e.get('op')
+        if op in ('++', '--'):
+            v = self._get(c, key)
+            if isinstance(v, tuple) and v[0] == 'ref' and isinstance(v[1], list):
+                nv = ('ref', v[1], v[2] + (1 if op == '++' else -1))
+            elif isinstance(v, int):
+                nv = v + (1 if op == '++' else -1)
+            else:
+                raise Stuck('stepping %r' % (v,))
+        elif op == '=':
+            nv = self.rval(e['rhs'], env)
+            if isinstance(nv, dict):
+                nv = copy.deepcopy(nv)          # structure assignment copies the element
+        else:
+            a, b = self._get(c, key), self.rval(e['rhs'], env)
+            o = op[:-1]
+            if not (isinstance(a, int) and isinstance(b, int) and o in _ARITH):
+                raise Stuck('compound assignment %s' % op)
+            nv = _ARITH[o](a, b)
+        if isinstance(c, list):
+            c[key] = nv
+        else:
+            c[key] = nv
+
+    def run(self, g, env):
+        """executes the (inlined) function on the model; 'done' | 'abort' (a call that does not return)"""
+        b = g.entry
+        while True:
+            blk = g.blocks[b]
+            for e in blk.events:
+                self.steps += 1
+                if self.steps > 200000:
+                    raise Stuck('evaluation does not terminate')
+                if e['ev'] == 'store':
+                    self.store(e, env)
+                elif e['ev'] == 'call':
+                    if blk.noreturn and e is [x for x in blk.events if x['ev'] == 'call'][-1]:
+                        return 'abort'
+                    raise Stuck('call of %s' % (e.get('callee') or canon(e.get('fnexpr'))))
+            if blk.noreturn:
+                return 'abort'
+            succ = [s for s in blk.succ if s is not None]
+            if b == g.exit or not succ:
+                return 'done'
+            if len(succ) == 1:
+                b = succ[0]
+                continue
+            t = blk.term or {}
+            if t.get('cond') is None or len(blk.succ) != 2 or t.get('cls') in ('SwitchStmt', 'MethodDispatch'):
+                raise Stuck('undecidable branch (%s)' % t.get('cls'))
+            b = blk.succ[0] if self.truth(self.rval(t['cond'], env)) else blk.succ[1]
+            if b is None:
+                return 'done'
+
+
+def slot_pairing(prog, table, depth=3, ndesc=3):
+    """[(what was run, violation text)] for one array-slot poll method; raises AnalysisBroken when the slot code cannot be
+    evaluated.  Model: `ndesc` descriptors with distinct file descriptors, the state as the init slot leaves it (all zero,
+    arrays allocated), every sequence of `depth` interest changes (descriptor, new wanted_bands in {0, 1, 3}); before its first
+    change a descriptor runs through the register_fd slot.  After every step: a descriptor that wants events owns one slot
+    k of the descriptor array (its index field says k, the array says it is the descriptor), no two own the same, and every
+    kernel-facing array indexed in parallel (`struct pollfd`) carries that descriptor's file descriptor in element k; a
+    descriptor that wants nothing owns no slot (index field as register_fd left it)."""
+    import itertools
+    fns = table_functions(prog, table)
+    if 'notify_fd' not in fns:
+        raise AnalysisBroken('%s has no notify_fd slot' % table)
+    code = {}
+    for slot in ('register_fd', 'notify_fd'):
+        if slot in fns:
+            code[slot] = (fns[slot], inline(prog, fns[slot], method_table=table, expand_methods=True))
+    # the index field of a descriptor, found by type in the slot code (the arrays are found in the model's memory afterwards)
+    gn = code['notify_fd'][1]
+    st_stores = slot_stores(gn)
+    idxkeys = slot_index_fields(gn, st_stores)
+    if not st_stores or not idxkeys:
+        raise AnalysisBroken('%s: descriptor array / index field not found in the notify_fd slot' % table)
+    idx_exprs = []
+    for e in gn.events():
+        for x in walk(e):
+            if x.get('k') == 'member' and (x.get('record'), x.get('field')) in idxkeys and not x['arrow']:
+                b = strip(x['base'])
+                if isinstance(b, dict) and b.get('k') == 'member' and b['arrow']:
+                    idx_exprs.append(x)
+    if not idx_exprs:
+        raise AnalysisBroken('%s: index field access not found' % table)
+
+    def params(f):
+        sp = [p['name'] for p in f.params if p.get('record') == 'iv_state' and p.get('ptr')]
+        dp = [p['name'] for p in f.params if p.get('record') in FD_RECORDS and p.get('ptr')]
+        if len(sp) != 1 or len(dp) != 1:
+            raise AnalysisBroken('%s: slot without (state, descriptor) parameters' % f.name)
+        return sp[0], dp[0]
+
+    def index_of(m, d):
+        """the descriptor's slot index, read through the index field access path of the slot code"""
+        x = idx_exprs[0]
+        path = []
+        while isinstance(x, dict) and x.get('k') == 'member':
+            path.append(x['field'])
+            if x['arrow']:
+                break
+            x = strip(x['base'])
+        c = m.obj(d)
+        for fld in reversed(path):
+            c = c.get(fld) if isinstance(c, dict) else None
+            if c is None:
+                return 0
+        return c
+
+    def arrays(m):
+        """the arrays that live in the state, by what they hold: descriptor pointers / elements with an `fd` member"""
+        das, kas, seen, work = [], [], set(), [m.obj(m.state)]
+        while work:
+            c = work.pop()
+            if id(c) in seen:
+                continue
+            seen.add(id(c))
+            for v in (c.values() if isinstance(c, dict) else c):
+                if isinstance(v, dict):
+                    work.append(v)
+                elif isinstance(v, tuple) and v[0] == 'arr':
+                    if any(isinstance(x, tuple) and x[0] == 'obj' for x in v[1]):
+                        das.append(v[1])
+                    elif any(isinstance(x, dict) and 'fd' in x for x in v[1]):
+                        kas.append(v[1])
+        return das, kas
+
+    def check(m, sp, wants, free):
+        das, kas = arrays(m)
+        owned = {}
+        for d, w in sorted(wants.items()):
+            k = index_of(m, d)
+            if not w:
+                if d in free and k != free[d]:
+                    return '%s wants nothing but its index field is %r (a descriptor without a slot has %r)' % (d, k, free[d])
+                continue
+            if not isinstance(k, int) or not 0 <= k < SlotMachine.CAP:
+                return '%s wants events but owns no slot (index field %r)' % (d, k)
+            if k in owned:
+                return '%s and %s own the same slot %d' % (owned[k], d, k)
+            owned[k] = d
+            if not das or not kas:
+                return '%s wants events but no descriptor array / kernel-facing array in the state holds anything' % d
+            for arr in das:
+                if arr[k] != ('obj', d):
+                    return 'slot %d of the descriptor array does not hold %s, whose index field says %d' % (k, d, k)
+            for arr in kas:
+                el = arr[k]
+                if not isinstance(el, dict) or el.get('fd') != m.obj(d).get('fd'):
+                    return 'element %d of the kernel-facing array carries file descriptor %r, but slot %d belongs to %s (file ' \
+                           'descriptor %r): the kernel result for another descriptor is attributed to it' % (
+                               k, el.get('fd') if isinstance(el, dict) else None, k, d, m.obj(d).get('fd'))
+        return None
+
+    names = ['d%d' % i for i in range(ndesc)]
+    bad = []
+    seen = set()
+    for seq in itertools.product([(d, w) for d in names for w in (0, 1, 3)], repeat=depth):
+        m = SlotMachine()
+        for i, d in enumerate(names):
+            m.obj(d)['fd'] = 10 + i
+        wants, free = {}, {}
+        try:
+            for step, (d, w) in enumerate(seq):
+                if d not in wants:
+                    if 'register_fd' in code:
+                        f, g = code['register_fd']
+                        sp, dp = params(f)
+                        m.run(g, {sp: ('obj', 'state'), dp: ('obj', d)})
+                    free[d] = index_of(m, d)
+                    wants[d] = 0
+                m.obj(d)['wanted_bands'] = w
+                wants[d] = w
+                f, g = code['notify_fd']
+                sp, dp = params(f)
+                res = m.run(g, {sp: ('obj', 'state'), dp: ('obj', d)})
+                why = 'the slot code aborts' if res == 'abort' else check(m, sp, wants, free)
+                if why:
+                    raise ModelViolation(why)
+        except ModelViolation as v:
+            key = str(v)
+            if key not in seen:
+                seen.add(key)
+                bad.append((', '.join('%s wants %d' % s for s in seq[:step + 1]), key))
+        except Stuck as s_:
+            raise AnalysisBroken('%s: slot code cannot be evaluated on the model: %s' % (table, s_))
+    return bad
